@@ -822,6 +822,48 @@ func (w *world) garbage() *sim.Violation {
 	return nil
 }
 
+// extra: systematic enumeration of stream fault positions (once per check, worker 0): for a few
+// plaintext lengths around the block/header sizes, every reader policy, both sides, both peers,
+// EVERY byte position k at which the peer can fail, with and without data delivered together
+// with the error.  This is the enumerated part of the fault_enumeration claim; everything else
+// samples positions.
+func extra(out *sim.WorkerOut) []*sim.Case {
+	var bad []*sim.Case
+	seen := map[string]bool{}
+	n := 0
+	for _, plen := range []int{0, 1, 15, 16, 17, 33} {
+		for pol := 0; pol < 7; pol++ {
+			for side := 0; side < 2; side++ {
+				for which := 0; which < 2; which++ {
+					for fdata := 0; fdata < 2; fdata++ {
+						limit := plen + 1
+						if side == 0 && which == 1 {
+							limit = plen + 16
+						}
+						if side == 1 && which == 0 {
+							limit = plen + 17
+						}
+						for at := 0; at < limit; at++ {
+							c := &sim.Case{Property: "C09", Engine: "C", EnvSeed: uint64(1000 + plen*131 + pol*17 + at),
+								Params: map[string]int{"scen": 6, "plen": plen, "slen": 9, "alen": 0, "variant": (pol + at) % 4,
+									"rpol": pol, "rpol2": pol, "rfail": -1, "wfail": -1, "side": side, "which": which, "at": at, "fdata": fdata}}
+							v, _ := exec(c, out)
+							n++
+							if v != nil && !seen[v.Key()] {
+								seen[v.Key()] = true
+								c.Violation = v
+								bad = append(bad, c)
+							}
+						}
+					}
+				}
+			}
+		}
+	}
+	out.Probes["stream_fault_positions_enumerated"] += n
+	return bad
+}
+
 func main() {
-	engc.Main(&engc.Spec{ID: "C09", Gen: gen, Exec: exec})
+	engc.Main(&engc.Spec{ID: "C09", Gen: gen, Exec: exec, Extra: extra})
 }
